@@ -177,8 +177,18 @@ class C20(HistoryCampaign):
             sc["moves"].append({"name": f"bare{j}", "criteria": "bare",
                                 "verdicts": [rnd.random() < 0.6 for _ in range(rnd.randint(1, 6))],
                                 "probability": gen.rfloat(rnd, 0.5, 3.0, 2),
-                                "move": {"type": "bare", "kind": rnd.choice(kinds), "step": gen.logu(rnd, 0.01, 0.2),
+                                "move": {"type": "bare", "kind": rnd.choice(kinds),
+                                         "step": gen.logu(rnd, 0.01, 0.2) if rnd.random() < 0.6 else gen.logu(rnd, 1e-10, 1e-3),
                                          "results": [rnd.choice(RESULTS) for _ in range(rnd.randint(1, 6))]}})
+        if drv in ("Isobaric", "Isotension") and rnd.random() < 0.4:
+            # every accepted change of the cell counts, however small
+            for e in sc["moves"]:
+                stack = [e["move"]]
+                while stack:
+                    x = stack.pop()
+                    if x["type"] == "cell" and x.get("op"):
+                        x["op"]["max"] = gen.logu(rnd, 1e-10, 1e-4)
+                    stack += x.get("items", []) + ([x["item"]] if "item" in x else [])
         if rnd.random() < 0.3 and drv != "MonteCarlo" and len(sc["moves"]) > 1:
             # a shipped move judged by a bare criteria
             for e in sc["moves"]:
